@@ -180,10 +180,10 @@ def ifaceEntries (fs : Fs) (i : String) : List Entry := fs.days.filter (·.iface
 
 /-! The query engine visits the day directories of an interface in name order (`os.ReadDir`): days
     ascending, and within one day the backup before or after the merged directory depending on the two
-    summary suffixes (`ord`, an observed input). It reads only blocks between the first block of the
-    first and the last block of the last directory visited (`tFirstCovered` / `tLastCovered` in
-    `CreateWorkerJobs`) — a no-op when every day has one directory, but inside the window it can clip
-    blocks of either directory. A block whose column file is missing makes the whole query fail. -/
+    summary suffixes (`ord`, an observed input). Since the C06 fixes the order does not matter any more:
+    blocks are selected by the queried range (not by the first block of the first and the last block of
+    the last directory visited), and a block whose column file is missing is skipped and counted as
+    corrupted instead of failing the whole query. -/
 
 abbrev Ord := List ((String × Int) × Bool)
 
@@ -201,17 +201,11 @@ def insertEntry (ord : Ord) (e : Entry) : List Entry → List Entry
 
 def sortEntries (ord : Ord) (l : List Entry) : List Entry := l.foldr (insertEntry ord) []
 
-/-- the blocks a whole-range query reads from one interface; `none` = the query fails -/
+/-- the blocks a whole-range query reads from one interface (`none` = the query fails: does not happen
+    any more): every block of every visible directory that still holds all its column files -/
 def ifaceQuery (ord : Ord) (fs : Fs) (i : String) : Option (List WriteOut) :=
   let es := sortEntries ord ((ifaceEntries fs i).filter visible)
-  match es.head?, es.getLast? with
-  | some f, some l =>
-    let tF := ((f.blocks.head?).map (·.ts)).getD 0
-    let tL := ((l.blocks.getLast?).map (·.ts)).getD 0
-    let inR (b : C24.Block) : Bool := decide (tF ≤ b.ts) && decide (b.ts ≤ tL)
-    if es.any (fun e => !readable e && e.blocks.any inR) then none
-    else some (es.flatMap fun e => (e.blocks.filter inR).map (woOf i))
-  | _, _ => some []
+  some (es.flatMap fun e => if readable e then e.blocks.map (woOf i) else [])
 
 def queryView (ord : Ord) (fs : Fs) : String :=
   let ifs := getInterfaces fs
